@@ -9,3 +9,5 @@ import Peppi.Props.C18
 #print axioms Peppi.Props.C18.slppRead_written
 #print axioms Peppi.Props.C18.slppWrite_signature
 #print axioms Peppi.Props.C18.tarArchive_length_ge
+#print axioms Peppi.Props.C18.tarScan_cut
+#print axioms Peppi.Props.C18.slppReadL_written
